@@ -58,6 +58,10 @@ def cases(ctx: Ctx, res: Result):
 
 def run(ctx: Ctx) -> Result:
     res = Result()
+    if ctx.replay is not None and ctx.replay['replay'].get('history_race'):
+        from harness import history_race
+        history_race.run(res, only=ctx.replay['replay'])
+        return res
     if ctx.replay is not None:
         cs = [Case.from_json(ctx.replay['replay'])]
     else:
@@ -80,6 +84,11 @@ def run(ctx: Ctx) -> Result:
     for k in shapes:
         del res.distribution[k]
     res.distribution['distinct_random_shapes'] = len(shapes)
+    # history-dependent predicates read the run's live history while other threads read it too (a monitor, the thread that
+    # writes it out for a peer): what `first()` / `last()` / … answer must not depend on that
+    if ctx.replay is None:
+        from harness import history_race
+        history_race.run(res)
     return res
 
 
